@@ -252,7 +252,7 @@ class BitStore:
         return BitStore(self._bitarray[s.start:s.stop])
 
     def getindex_lsb0(self, index: int, /) -> bool:
-        return bool(self._bitarray.__getitem__(-index - 1))
+        return bool(self._bitarray.__getitem__(-int(index) - 1))
 
     @overload
     def setitem_lsb0(self, key: int, value: int, /) -> None:
@@ -277,7 +277,7 @@ class BitStore:
             new_slice = offset_slice_indices_lsb0(clamp_step(key, len(self)), len(self))
             self._bitarray.__delitem__(new_slice)
         else:
-            self._bitarray.__delitem__(-key - 1)
+            self._bitarray.__delitem__(-int(key) - 1)
 
     def invert_msb0(self, index: Optional[int] = None, /) -> None:
         if index is not None:
